@@ -394,7 +394,149 @@ def generate() -> str:
     return "\n".join(out) + "\n"
 
 
+# ------------------------------------------------------------------ lib/math.facto -> Lean terms
+LIB_CALLS = {
+    # function: parameter names (every argument is passed as a declared input signal of its own type)
+    "abs": ["x"], "sign": ["x"], "min": ["a", "b"], "max": ["a", "b"], "clamp": ["x", "low", "high"],
+    "between": ["x", "low", "high"], "get_bit": ["value", "pos"], "set_bit": ["value", "pos"],
+    "clear_bit": ["value", "pos"], "toggle_bit": ["value", "pos"], "div_floor": ["a", "b"], "mod_positive": ["a", "b"],
+    "lerp": ["a", "b", "t"],
+}
+ARG_TYPES = ["signal-A", "signal-B", "signal-C"]
+
+
+def lean_str(s):
+    return '"' + s.replace("\\", "\\\\").replace('"', '\\"') + '"'
+
+
+def sexpr(j) -> str:
+    k = j["k"]
+    if k == "Num":
+        return f"(.num ({j['v']}))"
+    if k == "Str":
+        return f"(.str {lean_str(j['v'])})"
+    if k == "Id":
+        return f"(.ident {lean_str(j['name'])})"
+    if k == "Bin":
+        return f"(.bin {lean_str(j['op'])} {sexpr(j['l'])} {sexpr(j['r'])})"
+    if k == "Un":
+        return f"(.un {lean_str(j['op'])} {sexpr(j['e'])})"
+    if k == "Call":
+        return f"(.call {lean_str(j['name'])} [{', '.join(sexpr(a) for a in j['args'])}])"
+    if k == "OutSpec":
+        return f"(.outspec {sexpr(j['cond'])} {sexpr(j['out'])})"
+    if k == "SigLit":
+        ty = j["ty"]
+        t = "none" if ty is None else (f"(some (.name {lean_str(ty)}))" if isinstance(ty, str) else f"(some (.typeOf {lean_str(ty['obj'])}))")
+        return f"(.siglit {t} {sexpr(j['v'])})"
+    if k == "Proj":
+        ty = j["ty"]
+        t = f"(.name {lean_str(ty)})" if isinstance(ty, str) else f"(.typeOf {lean_str(ty['obj'])})"
+        return f"(.proj {sexpr(j['e'])} {t})"
+    raise Untranslatable(f"library expression {k}")
+
+
+def sstmt(j) -> str:
+    k = j["k"]
+    if k == "Func":
+        params = ", ".join(f"({lean_str(p['ty'])}, {lean_str(p['name'])})" for p in j["params"])
+        body = ", ".join(sstmt(b) for b in j["body"])
+        return f".func {lean_str(j['name'])} [{params}] [{body}] {j.get('line', 0)}"
+    if k == "Decl":
+        return f".decl {lean_str(j['ty'])} {lean_str(j['name'])} {sexpr(j['value'])} {j.get('line', 0)}"
+    if k == "Return":
+        return f".ret {sexpr(j['expr'])} {j.get('line', 0)}"
+    raise Untranslatable(f"library statement {k}")
+
+
+def generate_lib() -> str:
+    """lib/math.facto parsed by the REAL parser (in a /venv/bin/python subprocess) and rendered as Lean terms"""
+    import json
+    import subprocess
+    code = ("import sys, json\nsys.path.insert(0, %r)\nsys.path.insert(0, %r)\nfrom facto_dump import ast_json\n"
+            "from dsl_compiler.src.parsing.parser import DSLParser\n"
+            "src = open(%r).read()\nprint(json.dumps(ast_json(DSLParser().parse(src, 'math.facto'))))") % (
+        REPO, HERE, os.path.join(REPO, "lib", "math.facto"))
+    p = subprocess.run(["/venv/bin/python", "-c", code], capture_output=True, text=True, cwd="/")
+    if p.returncode != 0:
+        raise Untranslatable("lib/math.facto does not parse: " + p.stderr[-300:])
+    ast_ = json.loads(p.stdout.strip().splitlines()[-1])
+    funcs = [s for s in ast_["body"] if s["k"] == "Func"]
+    names = [f["name"] for f in funcs]
+    out = ["/- GENERATED by harness/py2lean.py from /repo/lib/math.facto (through the real parser). Do not edit. -/",
+           "import Model.Elab", "", "namespace Gen", "open Facto", "",
+           "/-- the function declarations of lib/math.facto -/", "def libMath : Program := ["]
+    out.append(",\n".join("  " + sstmt(f) for f in funcs))
+    out.append("]")
+    out.append("")
+    for fn, params in LIB_CALLS.items():
+        if fn not in names:
+            raise Untranslatable(f"lib/math.facto no longer defines {fn}")
+        decls = ", ".join(f'.decl "Signal" {lean_str("in_" + p)} (.siglit (some (.name {lean_str(ARG_TYPES[i])})) (.num 1)) 0'
+                          for i, p in enumerate(params))
+        args = ", ".join(f'.ident {lean_str("in_" + p)}' for p in params)
+        out.append(f"/-- `Signal r = {fn}(…)` with every argument a declared input -/")
+        out.append(f"def call_{fn} : Program := libMath ++ [{decls}, .decl \"Signal\" \"r\" (.call {lean_str(fn)} [{args}]) 0]")
+        out.append("")
+    out.append("def nodesOf (p : Program) : Option (Array CNode) := match elabProgram p none 400 with | .ok c => some c.nodes | .error _ => none")
+    out.append("end Gen")
+    return "\n".join(out) + "\n"
+
+
+def generate_lib_nodes(lib_text_path: str) -> str:
+    """ask Lean for the elaborated Core nodes of every call program (untrusted: re-checked by `decide +kernel`)"""
+    import subprocess
+    import tempfile
+    lean_dir = os.path.join(os.path.dirname(HERE), "lean")
+    src = "import Model.GeneratedLib\nopen Facto Gen\n" + "\n".join(
+        f'#eval IO.println ("NODES {fn} " ++ toString (repr (nodesOf call_{fn})))' for fn in LIB_CALLS)
+    with tempfile.NamedTemporaryFile("w", suffix=".lean", delete=False, dir=lean_dir) as tf:
+        tf.write(src)
+        path = tf.name
+    try:
+        subprocess.run(["lake", "build", "Model.GeneratedLib"], cwd=lean_dir, capture_output=True, text=True)
+        p = subprocess.run(["lake", "env", "lean", path], cwd=lean_dir, capture_output=True, text=True)
+    finally:
+        os.unlink(path)
+    out = ["/- GENERATED by harness/py2lean.py: elaborated Core nodes of the library call programs, as printed by", "   Lean itself; `Proofs/Props/C17.lean` re-checks each against `nodesOf` with `decide +kernel`. Do not edit. -/",
+           "import Model.GeneratedLib", "", "namespace Gen", "open Facto", ""]
+    text = p.stdout
+    import re
+    for fn in LIB_CALLS:
+        m = re.search(r"NODES %s (.*?)(?=\nNODES |\Z)" % fn, text, flags=re.S)
+        if not m:
+            raise Untranslatable(f"no Core nodes for library function {fn}: {p.stdout[-200:]} {p.stderr[-300:]}")
+        body = m.group(1).strip()
+        if not body.startswith("some"):
+            raise Untranslatable(f"library call program of {fn} does not elaborate: {body[:200]}")
+        body = body[len("some"):].strip()
+        if body.startswith("(") and body.endswith(")"):
+            body = body[1:-1]
+        out.append(f"def nodes_{fn} : Array CNode := {body}")
+        out.append("")
+    out.append("end Gen")
+    return "\n".join(out) + "\n"
+
+
+def write_if_changed(path, text):
+    old = open(path).read() if os.path.exists(path) else None
+    if old != text:
+        with open(path, "w") as f:
+            f.write(text)
+    return old != text
+
+
 def main():
+    if "--lib" in sys.argv:
+        try:
+            lib_path = os.path.join(os.path.dirname(OUT), "GeneratedLib.lean")
+            ch1 = write_if_changed(lib_path, generate_lib())
+            ch2 = write_if_changed(os.path.join(os.path.dirname(OUT), "GeneratedLibNodes.lean"), generate_lib_nodes(lib_path))
+            print("generated library model", "(changed)" if (ch1 or ch2) else "(unchanged)")
+            return 0
+        except Untranslatable as e:
+            print(f"UNTRANSLATABLE: {e}")
+            return 3
     try:
         text = generate()
     except Untranslatable as e:
